@@ -142,17 +142,20 @@ Inductive tok :=
 | TC (c : N) (quoted : bool) (expanded : bool)
     (* quoted: inside '...', "..." or after a backslash;
        expanded: the result of a parameter expansion *)
+| TH (c : N) (quoted : bool)
+    (* a character of a tilde expansion: never split, never marked as the
+       result of a parameter expansion *)
 | TQ.
 Definition pfield := list tok.
 
 Definition tok_quote (t : tok) : tok :=
-  match t with TC c _ x => TC c true x | TQ => TQ end.
+  match t with TC c _ x => TC c true x | TH c _ => TH c true | TQ => TQ end.
 Definition tok_expanded (t : tok) : tok :=
-  match t with TC c q _ => TC c q true | TQ => TQ end.
+  match t with TC c q _ => TC c q true | TH c q => TH c q | TQ => TQ end.
 
 Definition value_toks (s : str) : pfield := map (fun c => TC c false true) s.
 Definition chars_of (pf : pfield) : str :=
-  flat_map (fun t => match t with TC c _ _ => [c] | TQ => [] end) pf.
+  flat_map (fun t => match t with TC c _ _ | TH c _ => [c] | TQ => [] end) pf.
 
 (* XCU 2.6.2, the table of ${parameter[:]-=?+word} *)
 Inductive pstate := SetNotNull | SetNull | Unset.
@@ -274,13 +277,24 @@ Fixpoint tok_pattern (esc : bool) (pf : pfield) : list pchar :=
   match pf with
   | [] => []
   | TQ :: r => tok_pattern false r
-  | TC c q _ :: r =>
+  | TC c q _ :: r | TH c q :: r =>
       let q1 := q || esc in
       match r with
       | [] => [if q1 then PLiteral c else PNormal c]
       | _ :: _ =>
           if N.eqb c 92 && negb q1 then tok_pattern true r
           else (if q1 then PLiteral c else PNormal c) :: tok_pattern false r
+      end
+  end.
+
+(* command substitution: the output without its trailing newlines (XCU 2.6.3) *)
+Fixpoint strip_newlines (s : str) : str :=
+  match s with
+  | [] => []
+  | c :: r =>
+      match strip_newlines r with
+      | [] => if N.eqb c 10 then [] else [c]
+      | r' => c :: r'
       end
   end.
 
@@ -388,6 +402,13 @@ Fixpoint sem_tunit (dq : bool) (u : tunit) (e : env) {struct u} : sres (list pfi
               end
           end
       end
+  | TSubst raw => SOk [value_toks (strip_newlines raw)] e
+  | TArith t v =>
+      match top_or_empty (sem_text false) text_is_empty t e with
+      | SOk _ e' => SOk [value_toks v] e'
+      | SErr k => SErr k
+      | SUnspec => SUnspec
+      end
   end
 with sem_text (dq : bool) (t : text) (e : env) {struct t} : sres (list pfield) :=
   match t with
@@ -414,6 +435,12 @@ with sem_wunit (dq : bool) (u : wunit) (e : env) {struct u} : sres (list pfield)
       | SErr k => SErr k
       | SUnspec => SUnspec
       end
+  | WDsq s => SOk [TQ :: TQ :: map (fun c => TC c true false) s ++ [TQ]] e
+  | WTilde home slash =>
+      (* the home directory, literally; without its final slash if a slash
+         follows; if nothing is left the word still counts as non-empty *)
+      let chars := if slash then match rev home with 47%N :: r => rev r | _ => home end else home in
+      SOk [match chars with [] => [TQ] | _ => map (fun c => TH c false) chars end] e
   end
 with sem_word (dq : bool) (w : word) (e : env) {struct w} : sres (list pfield) :=
   match w with
@@ -439,7 +466,7 @@ Section Final.
   (* only unquoted results of expansions are split *)
   Definition tok_class (ifs_chars : str) (t : tok) : class :=
     match t with
-    | TQ => NonIfs
+    | TQ | TH _ _ => NonIfs
     | TC c q x =>
         if x && negb q && existsb (N.eqb c) ifs_chars
         then if is_ws c then IfsWhitespace else IfsNonWhitespace
@@ -475,6 +502,18 @@ Section Final.
      (for the parameter @ POSIX leaves this unspecified) *)
   Definition spec_word_single (w : word) (e : env) : sres str :=
     match top_or_empty (sem_word false) word_is_empty w e with
+    | SOk pfs e' =>
+        match ifs_value e' with
+        | Some iv => SOk (chars_of (join_with (star_separator iv) pfs)) e'
+        | None => SUnspec
+        end
+    | SErr k => SErr k
+    | SUnspec => SUnspec
+    end.
+
+  (* a text in a context without field splitting (here-document bodies) *)
+  Definition spec_text_single (t : text) (e : env) : sres str :=
+    match top_or_empty (sem_text false) text_is_empty t e with
     | SOk pfs e' =>
         match ifs_value e' with
         | Some iv => SOk (chars_of (join_with (star_separator iv) pfs)) e'
@@ -611,6 +650,8 @@ Fixpoint core_tunit (u : tunit) : bool :=
       | MSwitch _ _ w => negb (is_list_param p) && core_word w
       | MTrim _ _ _ => false
       end
+  | TSubst _ => true
+  | TArith t _ => core_text t
   end
 with core_text (t : text) : bool :=
   match t with TNil => true | TCons u t' => core_tunit u && core_text t' end
@@ -619,6 +660,7 @@ with core_wunit (u : wunit) : bool :=
   | WUnq t => core_tunit t
   | WSq _ => true
   | WDq t => core_text t
+  | WDsq _ | WTilde _ _ => true
   end
 with core_word (w : word) : bool :=
   match w with WNil => true | WCons u w' => core_wunit u && core_word w' end.
